@@ -1,5 +1,5 @@
 import Witverif.Proofs.Scalar
-import Witverif.Generated.ScalarExprs
+import Witverif.Generated.ScalarExprs.D
 /-! # C14, backend `d`: one theorem per scalar ABI instruction
 
 `G.d_I` is the list of conversion expressions the `d` generator emitted for instruction `I`
